@@ -82,6 +82,24 @@ def run_r1(ctx, rule):
                 # identity transfer: no field store inside the loop on that path
                 path_blocks = c.reachable_from(ff[0]) & loops[h]
     rule.check(ok_cycle and len(cyc) == 1, "request_more/read-cycle", "there is exactly one cycle through the read and it is the Interrupted retry (%s)" % detail, f.loc(rbb))
+    # (b3) ... and an interruption always leads back to the read: from the true edge of `kind == Interrupted` nothing
+    # but the read can be reached (no exit from the retry that a run of interruptions could take: the same bytes
+    # would end in an error or not, depending on how often the source was interrupted)
+    if cyc:
+        h = cyc[0]
+        n_int = 0
+        for s_bb in sorted(loops[h]):
+            if f.term(s_bb)["k"] != "switch":
+                continue
+            for tgt, fa in guards.switch_edges(f, s_bb):
+                if (fa[0] == "bool" and fa[2] is True and fa[1][0] == "call" and "PartialEq" in fa[1][2]
+                        and any(x[0] == "agg" and x[2] == "Interrupted" for x in fa[1][3])):
+                    n_int += 1
+                    away = c.reachable_from(tgt, avoid=[rbb])
+                    leaves = sorted(x for x in away if x not in loops[h] or f.term(x)["k"] == "return")
+                    rule.check(not leaves, "request_more/interrupted-always-retries", "an Interrupted answer always leads back to the read (no way out of the retry%s)" % ("" if not leaves else ": bb%d is reachable without reading again" % leaves[0]), f.loc(s_bb))
+        if n_int == 0:
+            rule.bad("request_more/interrupted-test", "no `kind() == Interrupted` test found in the read loop", f.loc(rbb), kind="anchor-missing")
     # (b2) no field store on the Interrupted arm (retry without touching any state)
     if cyc:
         h = cyc[0]
